@@ -43,7 +43,8 @@ def configs(tier, seed):
                              trio=["valid_count", "mean", "sum"]))
     # array-cube-only statistics computed together with others (any order), mixed missing-value policies
     for trio, K in ((["covariance:ign", "max:prop", "sum:prop"], 2), (["corrcoef:ign", "min:prop", "count:prop"], 2),
-                    (["stddev:ign", "quantile:prop", "valid_count:prop"], 1), (["max:prop", "covariance:ign", "mean:ign"], 2)):
+                    (["stddev:ign", "quantile:prop", "valid_count:prop"], 1), (["max:prop", "covariance:ign", "mean:ign"], 2),
+                    (["max:ign", "sum:prop", "min:ign"], 1)):
         out.append(C03._base(3, [[]], 2, [0], "sum", weights="none", ignore=False, fact="nan", K=K, fmt="nan", side="xcube", trio=trio))
         # the same statistics with weights in both forms (caller-owned weight arrays must stay untouched)
         wtrio = [t for t in trio if not t.startswith(("max", "min"))] + ["sum:prop"]
